@@ -16,7 +16,4 @@ Lemma C08_discipline : table_okb tbl known summaries = true.
 Proof. vm_compute. reflexivity. Qed.
 
 Lemma C08_summaries_ok : forallb (summary_okb tbl known summaries) summaries = true.
-Proof.
-  pose proof C08_discipline as H. unfold table_okb in H.
-  apply andb_true_iff in H. exact (proj2 H).
-Qed.
+Proof. exact (table_okb_summaries tbl known summaries C08_discipline). Qed.
